@@ -11,11 +11,14 @@ pub open spec fn zw_wf<W: Write + io::Seek>(w: &ZipWriter<W>) -> bool {
     &&& files_ok(w.files@)
     &&& (w.writing_to_file ==> w.files@.len() > 0)
     &&& (w.writing_to_extra_field ==> w.writing_to_file && !w.writing_raw && w.files@.last().header_start + 30 <= MAX_OFF)
+    // the data of the open entry starts behind its 30 fixed header bytes (while extra data is collected over an unfaulted sink)
+    &&& (w.writing_to_extra_field && !w.writing_to_central_extra_field_only && gzw_plain(w.inner) && !zw_faulted(w)
+            ==> w.files@.last().header_start + 30 <= w.files@.last().data_start.0.g_val())
     &&& (w.writing_to_extra_field && !w.writing_to_central_extra_field_only ==> (gzw_plain(w.inner) || w.inner is Closed))
     // while local extra data is being collected over an unfaulted sink, the sink has not moved back behind the
     // recorded data start (it is parked there; only Write operations, which advance, can reach it meanwhile)
     &&& (w.writing_to_extra_field && !w.writing_to_central_extra_field_only && gzw_plain(w.inner) && !zw_faulted(w)
-            ==> w.files@.last().data_start.0.g_val() <= gzw_plain_sink(w.inner).g_pos())
+            ==> w.files@.last().data_start.0.g_val() == gzw_plain_sink(w.inner).g_pos())
     &&& (w.writing_to_central_extra_field_only ==> w.writing_to_extra_field)
     &&& (!(w.inner is Closed) ==> maybe_ok(gzw_sink(w.inner)))
     &&& (w.inner matches GenericZipWriter::Storer(MaybeEncrypted::Encrypted(_)) ==> w.files@.len() > 0)
